@@ -326,9 +326,19 @@ def parse_mask_doc(repo: str) -> Dict[str, List[str]]:
     return out
 
 
-def r11_3(ctx: Ctx) -> None:
+# documented conditions that no permission rule on the route implements today, each confirmed by reading (armed mode only)
+DOC_TRIAGE = {
+    ("node-file-access", "file exists"): "the handler looks the file up itself and answers failure when it is absent",
+    ("node-file-access", "file not deleted"): "same: FileSystem.access_file answers failure for a deleted file",
+    ("node-file-restore", "file is deleted"): "no validator class exists for 'is deleted'; restore_file answers failure otherwise",
+    ("node-folder-restore", "folder is deleted"): "no validator class exists for 'is deleted'; restore_folder answers failure otherwise",
+}
+
+
+def r11_3(ctx: Ctx, armed: bool = False) -> None:
     ix = ctx.ix
-    ctx.rule("R11.3", "cross-reference (informational): documented mask logic vs validator chain on the static route")
+    ctx.rule("R11.3", "documented permission conditions (docs/source/action_masking.rst) are validators on the action's static route"
+             if armed else "cross-reference (informational): documented mask logic vs validator chain on the static route")
     doc = parse_mask_doc(ix.repo)
     tree = RequestTree(ix)
     routes, _ = action_routes(ix)
@@ -351,18 +361,30 @@ def r11_3(ctx: Ctx) -> None:
                 m = re.search(r"state=\w+\.(\w+)", v.text)
                 chain.add(nm + (":" + m.group(1) if m else ""))
         missing = []
+        untriaged: List[str] = []
         for c in conds:
             want = DOC_CONDITIONS.get(c)
             if want is None:
                 if c != "always possible":
                     missing.append(f"'{c}' (no validator class implements this)")
+                    if (act, c) not in DOC_TRIAGE:
+                        untriaged.append(c)
                 continue
             if want.startswith("*."):
                 if not any(x.endswith(want[1:]) for x in chain):
                     missing.append(f"'{c}'")
+                    if (act, c) not in DOC_TRIAGE:
+                        untriaged.append(c)
             elif want not in chain:
                 missing.append(f"'{c}'")
+                if (act, c) not in DOC_TRIAGE:
+                    untriaged.append(c)
         n += 1
+        if armed:
+            ctx.record("R11.3", f"docs/source/action_masking.rst::{act}", r.where, not untriaged,
+                       (f"documented {conds}; route validators {sorted(chain)}" +
+                        (f"; documented but not enforced on the route: {untriaged}" if untriaged else "")))
+            continue
         ctx.ok("R11.3", f"docs/source/action_masking.rst::{act}", r.where,
                (f"documented {conds}; route validators {sorted(chain)}" +
                 (f"; NOT on the route: {missing}" if missing else "; all documented conditions present")), trivial=bool(missing))
